@@ -11,8 +11,9 @@ EmitBehaviour ==
 \* mentions a variable so that TLC does not evaluate the draw once as a constant expression
 Rnd(S) == RandomElement({x \in S : Len(hist) >= 0})
 SimNext ==
-    \/ \E i \in Ids : Send(i, Rnd(Tos), Rnd({c \in CidChoices(i) : IsDup(c) => req[DupOf(c)].st = "Out"}))
-    \/ \E i \in Ids : \E j \in Pending \ {i} : ("dup" \in Cids /\ Send(i, Rnd(Tos), "dup-" \o j))
+    \/ \E i \in Ids : Send(i, Rnd(Tos), Rnd({c \in CidChoices(i) : IsDup(c) => req[DupOf(c)].st = "Out"}),
+                           Rnd({x \in Bodies : x # "none" => Child(i) \in Ids}))
+    \/ \E i \in Ids : \E j \in Pending \ {i} : ("dup" \in Cids /\ Send(i, Rnd(Tos), "dup-" \o j, "none"))
     \/ \E w \in 1..4 : \E i \in Ids : Recv(i, Rnd(Types), Rnd(RFroms))
     \/ \E w \in 1..2 : \E i \in Pending : Recv(i, Rnd({"result", "error"}), Rnd({"exact", "absent"}))
     \/ \E k \in OpenKinds : Open(k)
